@@ -64,6 +64,8 @@ public:
 
   HashSet& operator=(const HashSet& other)
   {
+    if(&other == this)
+      return *this;
     clear();
     for(const Item* i = other._begin.item, * end = &other.endItem; i != end; i = i->next)
       append(i->key);
